@@ -1,14 +1,20 @@
 ---- MODULE NanoSemRun ----
 (* Job runner: evaluates programs handed over as JSON (one job per line) with NanoSem and prints *)
 (* the prescribed observable behaviour.  job = [id, prog, dev (seq of switch names), mode, what]  *)
-EXTENDS NanoSem, Json, IOUtils
+EXTENDS NanoSem, NanoType, Json, IOUtils
 CONSTANTS Fuel
 Jobs == ndJsonDeserialize(IOEnv.NANOSEM_JOBS)
 VARIABLES job, phase
 vars == <<job, phase>>
 DevSet(j) == {j.dev[k] : k \in 1..Len(j.dev)}
 Result(j) ==
-   IF j.what = "shadow"
+   IF j.what = "type"           \* static rules only: which rules does the program break?
+   THEN LET v == Violates(j.prog) IN [id |-> j.id, what |-> "type", wt |-> (v = {}), violates |-> v]
+   ELSE IF j.what = "sound"     \* type soundness on this program: WT => the run is not stuck (C04, model-level)
+   THEN LET v == Violates(j.prog)
+            r == RunMain(j.prog, DevSet(j), j.mode, Fuel) IN
+        [id |-> j.id, what |-> "sound", wt |-> (v = {}), violates |-> v, status |-> r.status, exit |-> r.exit, out |-> r.out, steps |-> r.steps]
+   ELSE IF j.what = "shadow"
    THEN [id |-> j.id, what |-> "shadow", shadows |-> RunShadows(j.prog, DevSet(j), j.mode, Fuel)]
    ELSE LET r == RunMain(j.prog, DevSet(j), j.mode, Fuel) IN
         [id |-> j.id, what |-> "main", status |-> r.status, exit |-> r.exit, out |-> r.out, steps |-> r.steps]
@@ -16,6 +22,8 @@ Init == job \in 1..Len(Jobs) /\ phase = "todo"
 Next == /\ phase = "todo" /\ phase' = "done" /\ job' = job
         /\ PrintT("@@J " \o ToJson(Result(Jobs[job])))
 Spec == Init /\ [][Next]_vars
-\* determinism/totality: every job yields a status (evaluation never fails to produce a result record)
-Total == TRUE
+\* type soundness of the specified language on the jobs given: a well-typed program never gets stuck
+Stuck(st) == st \notin {"ok", "fuel", "fault:assert", "fault:bounds", "fault:div0", "fault:depth", "fault:sigfpe"}
+Sound == \A k \in 1..Len(Jobs) : (phase = "todo" /\ job = k /\ Jobs[k].what = "sound") =>
+            LET j == Jobs[k] IN WT(j.prog) => ~Stuck(RunMain(j.prog, DevSet(j), j.mode, Fuel).status)
 ====
